@@ -3885,6 +3885,22 @@ func recv(n *node) {
 	tnext := getExec(n.tnext)
 	i := n.findex
 	l := n.level
+	define := n.anc.kind == defineStmt
+
+	// store sets the location of the result to the received value r, which is
+	// not addressable. The location may be a variable (v = <-c), the target of a
+	// pointer (*p = <-c) or a function result (return <-c): it is assigned, and
+	// replaced by a new variable only for a definition (v := <-c).
+	store := func(f *frame, r reflect.Value) {
+		data := getFrame(f, l).data
+		if !define && data[i].CanSet() && r.Type().AssignableTo(data[i].Type()) {
+			data[i].Set(r)
+			return
+		}
+		v := reflect.New(r.Type()).Elem()
+		v.Set(r)
+		data[i] = v
+	}
 
 	if n.interp.cancelChan {
 		// Cancellable channel read
@@ -3919,7 +3935,7 @@ func recv(n *node) {
 				// Fast: channel read doesn't block
 				ch := value(f)
 				if r, ok := ch.TryRecv(); ok {
-					getFrame(f, l).data[i] = r
+					store(f, r)
 					return tnext
 				}
 				// Slow: channel is blocked, allow cancel
@@ -3927,11 +3943,11 @@ func recv(n *node) {
 				done := f.done
 				f.mutex.RUnlock()
 
-				var chosen int
-				chosen, getFrame(f, l).data[i], _ = reflect.Select([]reflect.SelectCase{done, {Dir: reflect.SelectRecv, Chan: ch}})
+				chosen, r, _ := reflect.Select([]reflect.SelectCase{done, {Dir: reflect.SelectRecv, Chan: ch}})
 				if chosen == 0 {
 					return nil
 				}
+				store(f, r)
 				return tnext
 			}
 		}
@@ -3947,9 +3963,9 @@ func recv(n *node) {
 				return fnext
 			}
 		} else {
-			i := n.findex
 			n.exec = func(f *frame) bltn {
-				getFrame(f, l).data[i], _ = value(f).Recv()
+				r, _ := value(f).Recv()
+				store(f, r)
 				return tnext
 			}
 		}
